@@ -13,6 +13,7 @@ PY = os.path.join(VERIF, ".venv", "bin", "python")
 WORKER = os.path.join(HERE, "xh_worker.py")
 ZORG_SRC = os.environ.get("ZORG_SRC", "/repo/src")
 CC_MAX = int(os.environ.get("VERIF_CC_MAX", "300"))         # engine cross-validation: concrete runs per confirmed condition
+CC_REPLAYS = int(os.environ.get("VERIF_CC_REPLAYS", "2"))    # ... and of those, how many are also replayed on the real code
 CC_BUDGET = float(os.environ.get("VERIF_CC_BUDGET", "60"))   # ... and seconds
 NPROC = int(os.environ.get("VERIF_JOBS", str(os.cpu_count() or 8)))
 
@@ -71,6 +72,7 @@ def run_one(c: Cond) -> dict:
         spec = dict(c.cc or {})
         spec.setdefault("max", CC_MAX)
         spec.setdefault("budget_s", CC_BUDGET)
+        spec.setdefault("replays", CC_REPLAYS)
         res["cc"] = concrete_sweep(c.module, c.name, spec, c.env, timeout=CC_BUDGET * 2 + 120)
     res["wall_s"] = round(time.time() - t0, 2)
     res["twin"] = c.twin
